@@ -229,6 +229,14 @@ func cmdCheck(args []string) int {
 			}
 		}
 	}
+	// when a contract no longer applies to the code (stale unit) the bounded stand-ins are all
+	// that decides that function: run them with their thorough bounds, whatever the tier
+	boundTier := func() string {
+		if len(stale) > 0 {
+			return "thorough"
+		}
+		return *tier
+	}
 	workers := runtime.NumCPU()
 	sv.SolveAll(all, workers, nil)
 	// A failed no-overflow obligation is not by itself a violation of the property: Go defines
@@ -339,7 +347,7 @@ func cmdCheck(args []string) int {
 				for _, b := range pc.Bounded {
 					br := racCache["bounded:"+b]
 					if br == nil {
-						br = g.RacSearch(*repo, *verif, b, nil, sv, *tier)
+						br = g.RacSearch(*repo, *verif, b, nil, sv, boundTier())
 						racCache["bounded:"+b] = br
 					}
 					if br.Input != "" {
@@ -379,7 +387,7 @@ func cmdCheck(args []string) int {
 	// stale units: the contract no longer resolves against the code; fall back
 	// to the bounded run-time check of the externally visible contract.
 	for _, su := range stale {
-		rr := g.RacSearch(*repo, *verif, su.name, nil, sv, *tier)
+		rr := g.RacSearch(*repo, *verif, su.name, nil, sv, boundTier())
 		if rr.Input != "" {
 			violations++
 			rp := filepath.Join(replayDir, sanitize(su.name)+"_stale.json")
@@ -396,7 +404,7 @@ func cmdCheck(args []string) int {
 			for _, b := range pc.Bounded {
 				br := racCache["bounded:"+b]
 				if br == nil {
-					br = g.RacSearch(*repo, *verif, b, nil, sv, *tier)
+					br = g.RacSearch(*repo, *verif, b, nil, sv, boundTier())
 					racCache["bounded:"+b] = br
 				}
 				if !br.Ran {
@@ -423,7 +431,7 @@ func cmdCheck(args []string) int {
 	for _, b := range pc.Bounded {
 		rr := racCache["bounded:"+b]
 		if rr == nil {
-			rr = g.RacSearch(*repo, *verif, b, nil, sv, *tier)
+			rr = g.RacSearch(*repo, *verif, b, nil, sv, boundTier())
 		}
 		entry := map[string]interface{}{"function": b, "cases": rr.Cases, "bound": rr.Bound, "ran": rr.Ran, "note": rr.Note}
 		bounded = append(bounded, entry)
